@@ -454,6 +454,71 @@ theorem moasha_nds_layers (pts : List Point) (d : Nat) (hX : Rect pts d)
     obtain ⟨pi, pj, h1, h2, hlt⟩ := priority_layers pts d hX eps hε pn hn a b la lb ha hb hab i j hi hj
     refine ⟨by rw [hp]; simp, (pi : Rat), (pj : Rat), by simp [h1], by simp [h2], by exact_mod_cast hlt⟩
 
+/-- **MOASHA's rank is bounded by the Pareto layers** (`NonDominatedPriority`,
+`max_num_samples = None`): if the new entry (the last row) lies in the `b`-th Pareto layer of the
+rung, the number of recorded priorities strictly smaller than its own is at least the number of
+entries in the layers before `b` and less than that number plus the size of layer `b`.  With
+`moasha_rule`: more than `n / rf` entries in strictly earlier layers force STOP; at most `n / rf`
+entries in the same or earlier layers (itself included) force CONTINUE. -/
+theorem moasha_nds_rank_bounds (pts : List Point) (d : Nat) (hX : Rect pts d)
+    (eps : Nat → List Point → List Nat) (hε : EpsOK eps) (ps : List Rat) (v : Rat)
+    (h : prioNDS eps none pts = .ok (ps ++ [v]))
+    (b : Nat) (lb : List Nat)
+    (hb : (specLayers pts.length (enumFrom 0 pts))[b]? = some lb) (hmem : pts.length - 1 ∈ lb) :
+    sumLengths ((specLayers pts.length (enumFrom 0 pts)).take b) ≤ ps.countP (fun y => decide (y < v)) ∧
+    ps.countP (fun y => decide (y < v)) <
+      sumLengths ((specLayers pts.length (enumFrom 0 pts)).take b) + lb.length := by
+  unfold prioNDS at h
+  cases hn : ndPriority pts eps none with
+  | error e => rw [hn] at h; cases h
+  | ok pn =>
+    rw [hn] at h
+    simp only [Except.ok.injEq] at h
+    obtain ⟨order, ho, hnd, hp⟩ := priority_is_position pts d hX eps hε none pn hn
+    obtain ⟨L, hL, hfor⟩ := layers pts d hX eps hε
+    have hr : order = L.flatten := by
+      simp only [nondominatedSort, hL, Except.ok.injEq] at ho; exact ho.symm
+    obtain ⟨full, hfull, hperm⟩ := sort_perm pts d hX eps hε
+    rw [ho] at hfull; injection hfull with hfull; subst hfull
+    have hn1 : pts.length = ps.length + 1 := by
+      have := congrArg List.length h
+      rw [hp] at this
+      simpa using this
+    generalize hk : ps.length = k at hn1
+    rw [hn1] at hp hperm hmem
+    simp only [Nat.add_sub_cancel] at hmem
+    -- split the priority vector into the recorded part and the new entry
+    rw [hp, List.range_succ, List.map_append, List.map_append, List.map_cons, List.map_nil,
+      List.map_cons, List.map_nil] at h
+    have hsplit := List.append_inj' h (by simp)
+    obtain ⟨hps, hv⟩ := hsplit
+    simp only [List.cons.injEq, and_true] at hv
+    subst hv
+    -- the count is the position of the new entry
+    have hcount : ps.countP (fun y => decide (y < ((order.idxOf k : Nat) : Rat))) = order.idxOf k := by
+      rw [← hps, List.map_map, List.countP_map]
+      have e1 : (List.range k).countP ((fun y => decide (y < ((order.idxOf k : Nat) : Rat))) ∘
+            ((fun (n : Nat) => (n : Rat)) ∘ fun i => order.idxOf i))
+          = (List.range (k + 1)).countP (fun i => decide (order.idxOf i < order.idxOf k)) := by
+        rw [List.range_succ, List.countP_append]
+        simp only [List.countP_cons, List.countP_nil, Nat.lt_irrefl, decide_false, Bool.false_eq_true,
+          if_false, Nat.add_zero]
+        apply List.countP_congr
+        intro i _
+        simp only [Function.comp_apply, decide_eq_true_eq, Nat.cast_lt]
+      rw [e1, ← hperm.countP_eq, countP_idxOf_lt order hnd]
+      exact Nat.min_eq_left List.idxOf_le_length
+    rw [hcount]
+    -- the position of the new entry inside the layers
+    obtain ⟨lb', hb', hpb⟩ := forall₂_getElem? hfor b lb hb
+    have hndL : L.flatten.Nodup := by rw [← hr]; exact hnd
+    have hmem' : k ∈ lb' := hpb.mem_iff.mpr hmem
+    have hpos := idxOf_flatten_eq L hndL b lb' hb' k hmem'
+    have hsum := forall₂_sumLengths_take hfor b
+    have hlt := List.idxOf_lt_length_of_mem hmem'
+    rw [hr, hpos, ← hsum, ← hpb.length_eq]
+    omega
+
 /-! ### non-vacuity: concrete inputs meeting the hypotheses -/
 
 /-- ties and duplicates: `(1,1)` twice and `(0,5)` are non-dominated among
